@@ -96,19 +96,12 @@ Section Oracle.
   Definition ok_no_exception (valid : bool) (o : @res state) : bool :=
     match o with Raised _ => negb valid | _ => true end.
 
-  (* which entities a manager-level call awaits (None: some uid unknown) *)
+  (* which entities a manager-level call awaits (None: some uid unknown):
+     the uids named, all tasks, or all pilots that are not final at the call *)
   Definition awaited_tasks (tab : @table state) (u : uidsel) : option (list (@traj state)) :=
-    match u with
-    | UAll | UMany [] => Some (map snd tab)
-    | UOne x => find_all tab [x]
-    | UMany l => find_all tab l
-    end.
+    find_all tab (snd (sel_tasks tab u)).
   Definition awaited_pilots (tab : @table state) (u : uidsel) : option (list (@traj state)) :=
-    match u with
-    | UAll | UMany [] => Some (filter (fun tr => negb (is_final (at_ tr 0))) (map snd tab))
-    | UOne x => find_all tab [x]
-    | UMany l => find_all tab l
-    end.
+    find_all tab (snd (sel_pilots seqb final tab u)).
   Definition as_list (u : uidsel) : bool := match u with UOne _ => false | _ => true end.
 
   Definition clauses (lst : bool) (states : list state) (T term : option nat)
